@@ -50,3 +50,11 @@ Definition obs_matches (m : outcome F64) (o : cobs) : bool :=
   end.
 
 Definition compute_check (c : ccase) : bool := obs_matches (run_model c) (cc_obs c).
+
+(** ** iterates of the recurrence, computed once per case (for the oracles) *)
+From ET Require Import Proofs.ComputeProofs.
+Fixpoint iterates (ct : csm F64) (ap : vec F64) (a : float) (n : nat) (t : vec F64) : list (vec F64) :=
+  t :: match n with O => [] | Datatypes.S n' => iterates ct ap a n' (@step_tot F64 ct ap a t) end.
+(** delta at a scheduled check [k], from the memoised iterates *)
+Definition delta_at (xl : list (vec F64)) (t0 : vec F64) (mn fq k : nat) : float :=
+  match @subvec F64 (nth k xl t0) (nth (prev mn fq k) xl t0) with Ok td => @norm2 F64 td | _ => 0%float end.
